@@ -404,6 +404,38 @@ func (g *gen) method(verb, path, fullPath string, declared map[string]bool) *Dir
 		}
 		d.Children = append(d.Children, r)
 	}
+	// Description / Tags / Path / Query may stand anywhere among the method's
+	// children (requests and responses do not admit them); PASTE stays where it
+	// is, a request or response before it would adopt it
+	if g.chance(1, 2, "shuffleMethodKids") {
+		var movable []*Dir
+		var rest []*Dir
+		for _, c := range d.Children {
+			switch c.Kw {
+			case "Description", "Tags", "Path", "Query":
+				movable = append(movable, c)
+			default:
+				rest = append(rest, c)
+			}
+		}
+		for _, m := range movable {
+			// not before a PASTE of method children (its Description / Query would then come second)
+			lo := 0
+			for i, c := range rest {
+				if c.Kw == "PASTE" {
+					lo = i + 1
+				}
+			}
+			pos := lo + g.intn(len(rest)-lo+1, "kidPos")
+			if m.Kw == "Description" && pos > 0 && rest[pos-1].Kw == "Description" {
+				pos = lo
+			}
+			nr := append([]*Dir{}, rest[:pos]...)
+			nr = append(nr, m)
+			rest = append(nr, rest[pos:]...)
+		}
+		d.Children = rest
+	}
 	return d
 }
 
@@ -714,6 +746,23 @@ func GenDoc(t *rapid.T, o GenOpts) *Doc {
 				}
 				used[vb] = true
 				u.Children = append(u.Children, g.method(vb, "", base, declared))
+			}
+			// URL-level Tags / Path may also follow a method (whose children then
+			// need parentheses - FixContexts adds them)
+			if g.chance(1, 3, "urlKidsLate") {
+				var early, late, methods []*Dir
+				for _, c := range u.Children {
+					if (c.Kw == "Tags" || c.Kw == "Path") && g.chance(1, 2, "moveLate") {
+						late = append(late, c)
+					} else if IsVerb(c.Kw) {
+						methods = append(methods, c)
+					} else {
+						early = append(early, c)
+					}
+				}
+				if len(late) > 0 && len(methods) > 0 && len(methods[len(methods)-1].Children) > 0 {
+					u.Children = append(append(early, methods...), late...)
+				}
 			}
 			blocks = append(blocks, u)
 			if u.Child("Protocol") == nil && g.chance(1, 4, "samePathMethod") {
